@@ -990,6 +990,60 @@ pub fn run(ctx: &Ctx) -> Report {
         rep.merge(r);
     }
 
+    // ---- statement texts: everything the near-miss pool of C02 holds (comments terminated and not,
+    //      stacked, version comments, the built-in prefixes in every disguise, NUL bytes, punctuation
+    //      next to the prefixes) as COM_QUERY, COM_STMT_PREPARE and COM_INIT_DB, alone and pipelined:
+    //      a reply or an error return - and progress (a parser that spins on a text never touches the
+    //      transport again; the stuck-case watchdog and its isolated re-run are what decides that)
+    let n = if ctx.miri { 4 } else { super::c02::NEAR_MISS.len() as u64 * 6 };
+    let r = par_cases(ctx, "C20", "statement-texts", n, |rng, i, rep| {
+        let base = super::c02::NEAR_MISS[(i / 6) as usize % super::c02::NEAR_MISS.len()].as_bytes().to_vec();
+        let mut text = base.clone();
+        match i % 6 {
+            3 => text.extend_from_slice(b" "),
+            4 => {
+                let mut t = b"  ".to_vec();
+                t.extend_from_slice(&text);
+                text = t;
+            }
+            5 => {
+                let mut t = b"/* a */ ".to_vec();
+                t.extend_from_slice(&text);
+                text = t;
+            }
+            _ => {}
+        }
+        let mut cmds = Vec::new();
+        let mut scripts = Vec::new();
+        match i % 3 {
+            0 => {
+                cmds.push(Cmd::query(&text));
+                scripts.push(Script::Q(QProg::completed(1, 0)));
+            }
+            1 => {
+                cmds.push(Cmd::prepare(&text));
+                scripts.push(Script::PrepOk { id: 1, params: vec![], cols: vec![] });
+            }
+            _ => {
+                cmds.push(Cmd::init_db(&text));
+                scripts.push(Script::InitOk);
+            }
+        }
+        cmds.push(Cmd::ping());
+        let mut case = Case::new(cmds, scripts);
+        if rng.bool() {
+            case.arrival = Arrival::Pipelined(1);
+        }
+        let obs = run_case(&case);
+        rep.evaluations += 1;
+        let d = || J::obj().set("text", show(&text)).set("sent_as", ["COM_QUERY", "COM_STMT_PREPARE", "COM_INIT_DB"][(i % 3) as usize]).set("outcome", obs.outcome.describe());
+        if i < 2 {
+            rep.sample(d());
+        }
+        judge(&obs, "statement-text", rep, &d);
+    });
+    rep.merge(r);
+
     // ---- conversations that a client ends with COM_QUIT and then keeps its socket open until the
     //      server hangs up (pools and proxies do): QUIT alone, behind commands in the same read, in
     //      lock-step, with or without commands behind it. After the QUIT the server does not read again.
